@@ -571,6 +571,59 @@ func main() {
 		o.Set("db.maxKeySize", "txn.go:maxKeySize", lit, lit != "", "65000")
 	}
 
+	// ---------------------------------------------------------------- 11. lsm.ingestScanStop
+	// The model's ingest lookup visits EVERY table whose range contains the key.  That is what the
+	// code does only while (a) rebuildRanges keeps prefixMax[i] = running maximum of the max keys
+	// of ranges[0..i] and (b) search stops the descending scan on prefixMax and merely skips a
+	// single range whose max is below the key.  Only this shape is understood.
+	{
+		const name, anchor = "lsm.ingestScanStop", "lsm/ingest.go:search"
+		var bad []string
+		rr := ig.Func("ingestShard.rebuildRanges")
+		sh := recv(rr, "sh")
+		rsrc := ig.Src(body(rr))
+		want := "var max []byte for _, rng := range " + sh + ".ranges { if max == nil || utils.CompareUserKeys(rng.max, max) > 0 { max = rng.max } " +
+			sh + ".prefixMax = append(" + sh + ".prefixMax, max) }"
+		if !strings.Contains(rsrc, want) || strings.Count(rsrc, ".prefixMax = append(") != 1 {
+			bad = append(bad, "rebuildRanges running maximum")
+		}
+		ssrc := ig.Src(body(ig.Func("ingestBuffer.search")))
+		if !strings.Contains(ssrc, "if i < len(sh.prefixMax) && utils.CompareUserKeys(key, sh.prefixMax[i]) > 0 { break }") {
+			bad = append(bad, "search: break on prefixMax")
+		}
+		if !strings.Contains(ssrc, "if utils.CompareUserKeys(key, rng.max) > 0 { continue }") {
+			bad = append(bad, "search: continue on a range whose max is below the key")
+		}
+		if strings.Count(ssrc, "break") != 1 {
+			bad = append(bad, "search: number of break statements")
+		}
+		if len(bad) > 0 {
+			why(name, "%s", strings.Join(bad, "; "))
+		}
+		o.Set(name, anchor, "prefixMax", len(bad) == 0, "prefixMax")
+	}
+
+	// ---------------------------------------------------------------- 12. lsm.compactSplitRule
+	// All versions of a user key must end up in ONE output table (getTableForKey searches a single
+	// main table): subcompact may close a table only where the user key changes.
+	{
+		const name, anchor = "lsm.compactSplitRule", "lsm/executor.go:subcompact"
+		ex := o.Load("lsm/executor.go")
+		sc := body(ex.Func("levelManager.subcompact"))
+		inside := false
+		for _, st := range ifsUnder(sc) {
+			if ex.Src(st.Cond) == "!kv.SameKey(key, lastKey)" && strings.Contains(ex.Src(st.Body), "if builder.ReachedCapacity() {") {
+				inside = true
+			}
+		}
+		n := strings.Count(ex.Src(sc), "ReachedCapacity()")
+		ok := inside && n == 1
+		if !ok {
+			why(name, "ReachedCapacity() inside the !SameKey block: %v, occurrences: %d", inside, n)
+		}
+		o.Set(name, anchor, "userKeyBoundary", ok, "userKeyBoundary")
+	}
+
 	f := o.Facts
 	lean := fmt.Sprintf(`-- GENERATED by /verif/extract/cmd/lsm from the current /repo working tree. Do not edit.
 import NoKVModel.Lsm.Model
